@@ -81,6 +81,9 @@ pub trait BlockObj {
     fn blocks_b2b_raw(&mut self, inp: &[u8], out: &mut [u8]) -> Result<(), ()>;
     fn drop_scan(self: Box<Self>) -> Vec<u8>;
     fn peek(&self) -> Vec<u8>;
+    fn as_any(&self) -> &dyn core::any::Any;
+    /// `self.clone_from(src)` if `src` is the same concrete type
+    fn assign_from(&mut self, src: &dyn core::any::Any) -> bool;
 }
 
 /// optional capabilities that not every (mode, cipher) pair has
@@ -141,6 +144,25 @@ impl<BS: BlockSizes> BlockModeEncClosure for EncScript<'_, BS> {
                 let (head, tail) = rest.split_at(k);
                 backend.encrypt_tail_blocks(head);
                 rest = tail;
+            } else if c == 0 && rng.chance(1, 3) {
+                // the in-place convenience of the backend: legal on any buffer pair once the input
+                // has been copied to the output side
+                let k = if w > 1 { 1 + rng.usize(n.min(w - 1)) } else { 1 };
+                let (mut head, tail) = rest.split_at(k);
+                for i in 0..k {
+                    let mut b = head.get(i);
+                    let v = b.clone_in();
+                    *b.get_out() = v;
+                }
+                let out = head.get_out();
+                if k == 1 || w == 1 {
+                    for b in out.iter_mut() {
+                        backend.encrypt_block_inplace(b);
+                    }
+                } else {
+                    backend.encrypt_tail_blocks_inplace(out);
+                }
+                rest = tail;
             } else {
                 let (head, tail) = rest.split_at(1);
                 for b in head {
@@ -178,6 +200,25 @@ impl<BS: BlockSizes> BlockModeDecClosure for DecScript<'_, BS> {
                 let k = 1 + rng.usize(n.min(w - 1));
                 let (head, tail) = rest.split_at(k);
                 backend.decrypt_tail_blocks(head);
+                rest = tail;
+            } else if c == 0 && rng.chance(1, 3) {
+                // the in-place convenience of the backend: legal on any buffer pair once the input
+                // has been copied to the output side
+                let k = if w > 1 { 1 + rng.usize(n.min(w - 1)) } else { 1 };
+                let (mut head, tail) = rest.split_at(k);
+                for i in 0..k {
+                    let mut b = head.get(i);
+                    let v = b.clone_in();
+                    *b.get_out() = v;
+                }
+                let out = head.get_out();
+                if k == 1 || w == 1 {
+                    for b in out.iter_mut() {
+                        backend.decrypt_block_inplace(b);
+                    }
+                } else {
+                    backend.decrypt_tail_blocks_inplace(out);
+                }
                 rest = tail;
             } else {
                 let (head, tail) = rest.split_at(1);
@@ -270,7 +311,7 @@ where
         Box::new(EncO(Slot::new((*self.0).clone())))
     }
     fn debug(&self) -> String {
-        format!("{:?}", &*self.0)
+        format!("{:?}\n{:#?}", &*self.0, &*self.0)
     }
     fn alg(&self) -> String {
         fmt_alg::<M>()
@@ -306,6 +347,18 @@ where
     }
     fn peek(&self) -> Vec<u8> {
         self.0.peek()
+    }
+    fn as_any(&self) -> &dyn core::any::Any {
+        self
+    }
+    fn assign_from(&mut self, src: &dyn core::any::Any) -> bool {
+        match src.downcast_ref::<EncO<M>>() {
+            Some(s) => {
+                (*self.0).clone_from(&*s.0);
+                true
+            }
+            None => false,
+        }
     }
 }
 
@@ -374,7 +427,7 @@ where
         Box::new(DecO(Slot::new((*self.0).clone())))
     }
     fn debug(&self) -> String {
-        format!("{:?}", &*self.0)
+        format!("{:?}\n{:#?}", &*self.0, &*self.0)
     }
     fn alg(&self) -> String {
         fmt_alg::<M>()
@@ -410,6 +463,18 @@ where
     }
     fn peek(&self) -> Vec<u8> {
         self.0.peek()
+    }
+    fn as_any(&self) -> &dyn core::any::Any {
+        self
+    }
+    fn assign_from(&mut self, src: &dyn core::any::Any) -> bool {
+        match src.downcast_ref::<DecO<M>>() {
+            Some(s) => {
+                (*self.0).clone_from(&*s.0);
+                true
+            }
+            None => false,
+        }
     }
 }
 
